@@ -116,6 +116,10 @@ func main() {
 		fmt.Println(len(t.Rows), "rows; unsupported:", t.Unsupported)
 		return
 	}
+	if os.Getenv("AKITA_STATE_SURVEY") != "" {
+		stateSurvey(prog)
+		return
+	}
 	if os.Getenv("AKITA_GUARD_SURVEY") != "" {
 		guardSurvey(prog)
 		return
